@@ -243,6 +243,62 @@ def registry(run):
                 run.violation(f"C17|{cname}|{s}|not-in-registry", f"{cname} lists scheme {s} which the registry does not know", dict(context=cname))
 
 
+def concurrent_first_use(run):
+    """several threads make the very first identify()/verify() on a fresh copy of a shipped context at the same moment: each
+    must get the attribution a single thread gets (free-running threads, short switch interval, many rounds)"""
+    import sys
+    import threading
+    cs = contexts()
+    old = sys.getswitchinterval()
+    sys.setswitchinterval(1e-6)
+    try:
+        for cname, ctx in cs.items():
+            if isinstance(ctx, Exception):
+                continue
+            try:
+                schemes = [s_ for s_ in ctx.schemes() if H.usable(s_) and s_ not in H.DISABLED and s_ not in CATCHALL]
+            except Exception:
+                continue
+            if len(schemes) < 2:
+                continue
+            rng = run.rng("conc:" + cname)
+            target = schemes[-1]
+            samples = hashes_for(rng, target, 1)
+            if not samples:
+                continue
+            hs, pw, ck, _ = samples[0]
+            want = ctx.identify(hs)
+            rounds = 12 if run.tier == "quick" else 120
+            bad = None
+            for rnd in range(rounds):
+                fresh = ctx.copy()
+                nthreads = 4
+                barrier = threading.Barrier(nthreads)
+                out = [None] * nthreads
+
+                def work(i):
+                    barrier.wait()
+                    try:
+                        out[i] = fresh.identify(hs, category="admin" if i % 2 else None)
+                    except Exception as e:
+                        out[i] = "EXC:" + type(e).__name__
+                ths = [threading.Thread(target=work, args=(i,)) for i in range(nthreads)]
+                for t in ths:
+                    t.start()
+                for t in ths:
+                    t.join(30)
+                run.count("concurrent_first_use_rounds")
+                if any(o != want for o in out):
+                    bad = out
+                    break
+            run.case(("concurrent-first-use", cname), dict(context=cname, scheme=target, rounds=rounds, threads=4))
+            if bad:
+                run.violation(f"C17|{short(cname)}|{target}|concurrent-first-use", f"{cname}: four threads identifying a {target} hash on a fresh copy at once got {bad}; one thread gets {want!r}",
+                              dict(context=cname, scheme=target, hash=hs, results=bad))
+    finally:
+        sys.setswitchinterval(old)
+
+
 ORDER_PROBE = r"""
 import json, sys, warnings, importlib
 warnings.simplefilter("ignore")
@@ -291,6 +347,8 @@ def import_orders(run):
 
 def body(run):
     import_orders(run)
+    concurrent_first_use(run)
+    run.require("concurrent_first_use_rounds", 100)
     run.require("import_orders", 6)
     run.require("category_attributions", 200)
     run.require("bytes_attributions", 500)
